@@ -436,6 +436,14 @@ func lbCorpus() []LbCase {
 	out = append(out, LbCase{Strategy: "round_robin", Backends: []int{1, 1}, Brk: true, BMax: 1, BInterval: 60, BTimeout: 60, BFthr: 2, BSthr: 1, Ops: []LbOp{
 		{K: "begin", Rid: 1, Remote: "10.0.0.1:1"}, {K: "end", Rid: 1, Code: 500}, {K: "begin", Rid: 2, Remote: "10.0.0.1:1"}, {K: "end", Rid: 2, Code: 500},
 		{K: "begin", Rid: 3, Remote: "10.0.0.1:1"}, {K: "end", Rid: 3, Code: 500}, {K: "begin", Rid: 4, Remote: "10.0.0.1:1"}, {K: "end", Rid: 4, Code: 0}, {K: "begin", Rid: 5, Remote: "10.0.0.1:1"}, {K: "end", Rid: 5, Code: 200}}})
+	// C08: thresholds beyond 32 bits are accepted by the validator: the breaker must still be able to close
+	out = append(out, LbCase{Strategy: "round_robin", Backends: []int{1}, Brk: true, BMax: 4294967297, BInterval: 60, BTimeout: 60, BFthr: 1, BSthr: 3, Ops: []LbOp{
+		{K: "begin", Rid: 1, Remote: "10.0.0.1:1"}, {K: "end", Rid: 1, Code: 500}, {K: "adv", D: 61 * sec},
+		{K: "begin", Rid: 2, Remote: "10.0.0.1:1"}, {K: "end", Rid: 2, Code: 200}, {K: "begin", Rid: 3, Remote: "10.0.0.1:1"}, {K: "end", Rid: 3, Code: 200},
+		{K: "begin", Rid: 4, Remote: "10.0.0.1:1"}, {K: "end", Rid: 4, Code: 200}, {K: "begin", Rid: 5, Remote: "10.0.0.1:1"}, {K: "end", Rid: 5, Code: 200}}})
+	out = append(out, LbCase{Strategy: "round_robin", Backends: []int{1}, Brk: true, BMax: 4294967298, BInterval: 60, BTimeout: 60, BFthr: 4294967297, BSthr: 2, Ops: []LbOp{
+		{K: "begin", Rid: 1, Remote: "10.0.0.1:1"}, {K: "end", Rid: 1, Code: 500}, {K: "begin", Rid: 2, Remote: "10.0.0.1:1"}, {K: "end", Rid: 2, Code: 500},
+		{K: "begin", Rid: 3, Remote: "10.0.0.1:1"}, {K: "end", Rid: 3, Code: 200}}})
 	// C02: least connections, idle ejected backend shadows a busy healthy one
 	out = append(out, LbCase{Strategy: "least_connections", Backends: []int{1, 1}, Passive: true, PThr: 1, PTimeout: 30, Ops: []LbOp{
 		{K: "begin", Rid: 1, Remote: "10.0.0.1:1"}, {K: "end", Rid: 1, Code: 500}, {K: "begin", Rid: 2, Remote: "10.0.0.1:1"}, {K: "begin", Rid: 3, Remote: "10.0.0.1:1"}, {K: "list"}}})
